@@ -982,6 +982,9 @@ pub struct Style {
     pub includes: bool,
     pub decl: bool,
     pub xmlns: bool,
+    /// decorate elements with attributes of a foreign namespace whose LOCAL names are SCXML attribute
+    /// names (`ed:target`, `xml:id`, …), written after the real ones: they mean nothing to SCXML
+    pub foreign_attrs: bool,
     pub seed: u64,
 }
 
@@ -1109,6 +1112,16 @@ impl<'a> Rn<'a> {
     fn node(&mut self, x: &XNode, extra: &[(String, String)], out: &mut String, sax: &mut Vec<String>) {
         let mut attrs: Vec<(String, String)> = x.attrs.clone();
         attrs.extend_from_slice(extra);
+        if self.st.foreign_attrs {
+            for k in ["id", "target", "event", "initial", "type", "cond", "expr", "location", "name", "src", "delay"] {
+                if self.p.chance(1, 3) {
+                    attrs.push((format!("ed:{}", k), format!("ed-{}", k)));
+                }
+            }
+            if self.p.chance(1, 4) {
+                attrs.push(("xml:id".to_string(), "node-1".to_string()));
+            }
+        }
         let qn = self.qname(&x.name);
         if x.raw {
             match x.kids.first() {
@@ -1242,6 +1255,9 @@ pub fn render(x: &XNode, st: &Style, file_prefix: &str) -> Rendered {
                 extra.push(at("xmlns", "http://www.w3.org/2005/07/scxml"))
             }
         }
+    }
+    if st.foreign_attrs {
+        extra.push(("xmlns:ed".to_string(), "urn:example:editor".to_string()));
     }
     r.node(x, &extra, &mut out, &mut sax);
     r.gap(&mut out);
